@@ -8,6 +8,7 @@ import (
 	"path/filepath"
 
 	"github.com/ulikunitz/xz"
+	"github.com/ulikunitz/xz/lzma"
 
 	"verif/internal/ev"
 	"verif/internal/gen"
@@ -127,6 +128,7 @@ func checkC12(c *ev.Ctx) {
 		}
 	}
 	c.MinEvals(int64(len(files)))
+	c12Hetero(c)
 	par(len(files), func(i int) {
 		f := files[i]
 		var b, all []byte
@@ -214,6 +216,84 @@ func checkC12(c *ev.Ctx) {
 			}
 			if i%997 == 0 && !single {
 				c.Sample(map[string]any{"streams": idsOf(pool, f.idx), "paddings": f.pads, "leading": f.lead, "trailing": len(f.trail), "valid": valid, "error": fmt.Sprint(err), "bytes_out": len(out)})
+			}
+		}
+	})
+}
+
+// c12Hetero checks the concatenation law on chains whose members differ in everything a reader
+// could wrongly carry over from one stream to the next: dictionary size (with matches reaching
+// farther back than the previous stream's dictionary), lc/lp/pb, check type, block structure.
+// Every ordered pair and seed-chosen triples, paddings 0/4/8, ReaderConfig.DictCap unset and 4096.
+func c12Hetero(c *ev.Ctx) {
+	r := prng.New(c.Seed, 125)
+	type hs struct {
+		id string
+		b  []byte
+		d  []byte
+	}
+	var hp []hs
+	add := func(id string, cfg xz.WriterConfig, d []byte) {
+		if b := libWriteXZ(cfg, d); b != nil {
+			if o, _, err := ref.DecodeXZ(b, 0); err == nil && bytes.Equal(o, d) {
+				hp = append(hp, hs{id, b, d})
+			}
+		}
+	}
+	far := func(n, gap int) []byte {
+		x := gen.Data(r, "random", n)
+		return append(append(append([]byte{}, x...), gen.Data(r, "text", gap)...), x...)
+	}
+	add("d4k-text", xz.WriterConfig{DictCap: 4096, CheckSum: xz.CRC32}, gen.Data(r, "text", 300))
+	add("d4k-empty", xz.WriterConfig{DictCap: 4096, CheckSum: xz.CRC64}, nil)
+	add("d64k-far", xz.WriterConfig{DictCap: 65536, CheckSum: xz.CRC64}, far(3000, 50000))
+	add("d1m-far", xz.WriterConfig{DictCap: 1 << 20, CheckSum: xz.SHA256}, far(5000, 300000))
+	add("d8m-default-far", xz.WriterConfig{}, far(4000, 1200000))
+	add("d64k-lc0lp2pb0-blocks", xz.WriterConfig{DictCap: 65536, Properties: &lzma.Properties{LC: 0, LP: 2, PB: 0}, BlockSize: 7000, NoCheckSum: true}, gen.Data(r, "text", 30000))
+	add("d32k-lc4pb4-bt", xz.WriterConfig{DictCap: 32768, Properties: &lzma.Properties{LC: 4, LP: 0, PB: 4}, Matcher: lzma.BinaryTree, CheckSum: xz.CRC32}, gen.Data(r, "lowent", 9000))
+	add("d4k-raw", xz.WriterConfig{DictCap: 4096, CheckSum: xz.SHA256}, gen.Data(r, "random", 9000))
+	if len(hp) < 6 {
+		c.Inconclusive("hetero pool too small")
+		return
+	}
+	var lists [][]int
+	for a := range hp {
+		for b := range hp {
+			lists = append(lists, []int{a, b})
+		}
+	}
+	nt := 24
+	if thorough(c) {
+		nt = 300
+	}
+	for i := 0; i < nt; i++ {
+		lists = append(lists, []int{r.Intn(len(hp)), r.Intn(len(hp)), r.Intn(len(hp))})
+	}
+	par(len(lists), func(i int) {
+		l := lists[i]
+		rr := prng.New(c.Seed, 126, uint64(i))
+		var b, all []byte
+		var ids []string
+		var pads []int
+		for _, k := range l {
+			b = append(b, hp[k].b...)
+			all = append(all, hp[k].d...)
+			p := rr.Pick(0, 4, 8)
+			pads = append(pads, p)
+			b = append(b, make([]byte, p)...)
+			ids = append(ids, hp[k].id)
+		}
+		for _, dc := range []int{0, 4096} {
+			id := fmt.Sprintf("H%d-dc%d", i, dc)
+			if !want(c, id) {
+				continue
+			}
+			out, err := libXZ(b, xz.ReaderConfig{DictCap: dc})
+			c.Eval(fmt.Sprintf("hetero-%v-dc%d", ids, dc), true)
+			c.Count("hetero_chains", 1)
+			if err != nil || !bytes.Equal(out, all) {
+				c.Violation("concatenation-law", map[string]any{"case_id": id, "streams": ids, "paddings": pads, "reader_dictcap": dc, "file_len": len(b), "error": fmt.Sprint(err), "delivered": len(out),
+					"what": fmt.Sprintf("chain %v (different dictionary sizes / properties / checks) with paddings %v, ReaderConfig.DictCap=%d: error %v, %d bytes (want %d, first difference %d)", ids, pads, dc, err, len(out), len(all), firstDiff(out, all))})
 			}
 		}
 	})
